@@ -72,7 +72,7 @@ func lessFalse(name string, fn *ssa.Function, left, right func(ssa.Value) bool) 
 		n := 0
 		for _, tb := range ir.TrueBranches(b) {
 			if !want {
-				tb = ir.Branch{If: tb.If, Idx: 1 - tb.Idx}
+				tb = tb.Flip()
 			}
 			g.sites = append(g.sites, guardSite{tb, in})
 			n++
